@@ -55,9 +55,9 @@ static uint64_t one_op(priv_t *p, rng_t *r)
                 h = mix64(h, (uint64_t) cbc_enc_isal[ks](p->in, p->iv, p->e, p->out, l)); ACC(p->out, l);
                 h = mix64(h, (uint64_t) cbc_dec_isal[ks](p->out, p->iv, p->d, p->out2, l)); ACC(p->out2, l);
                 break; }
-        case 4: { uint32_t dg[8]; isal_mh_sha1_init(&p->mh1); isal_mh_sha1_update(&p->mh1, p->in, len / 2); isal_mh_sha1_update(&p->mh1, p->in + len / 2, len - len / 2); isal_mh_sha1_finalize(&p->mh1, dg); ACC(dg, 20); break; }
-        case 5: { uint32_t dg[8]; isal_mh_sha256_init(&p->mh2); isal_mh_sha256_update(&p->mh2, p->in, len); isal_mh_sha256_finalize(&p->mh2, dg); ACC(dg, 32); break; }
-        case 6: { uint32_t dg[8]; uint8_t mu[16]; isal_mh_sha1_murmur3_x64_128_init(&p->mh3, len); isal_mh_sha1_murmur3_x64_128_update(&p->mh3, p->in, len); isal_mh_sha1_murmur3_x64_128_finalize(&p->mh3, dg, mu); ACC(dg, 20); ACC(mu, 16); break; }
+        case 4: { uint32_t dg[8] = { 0 }; isal_mh_sha1_init(&p->mh1); isal_mh_sha1_update(&p->mh1, p->in, len / 2); isal_mh_sha1_update(&p->mh1, p->in + len / 2, len - len / 2); isal_mh_sha1_finalize(&p->mh1, dg); ACC(dg, 20); break; }
+        case 5: { uint32_t dg[8] = { 0 }; isal_mh_sha256_init(&p->mh2); isal_mh_sha256_update(&p->mh2, p->in, len); isal_mh_sha256_finalize(&p->mh2, dg); ACC(dg, 32); break; }
+        case 6: { uint32_t dg[8] = { 0 }; uint8_t mu[16] = { 0 }; isal_mh_sha1_murmur3_x64_128_init(&p->mh3, len); isal_mh_sha1_murmur3_x64_128_update(&p->mh3, p->in, len); isal_mh_sha1_murmur3_x64_128_finalize(&p->mh3, dg, mu); ACC(dg, 20); ACC(mu, 16); break; }
         case 7: {               /* rolling */
                 uint32_t w = 1 + rng_below(r, 48), off = 0; int match = 0;
                 isal_rolling_hash2_init(&p->rh, w); isal_rolling_hash2_reset(&p->rh, p->key);
